@@ -319,7 +319,8 @@ func genC16R(env *core.Env, emit func(core.Case)) {
 					}
 				}()
 				for i := 0; i < 30; i++ {
-					name := []string{"a.example", "b.example", "c.example"}[(g+i)%3]
+					// (nx.example does not exist: every lookup for it fails)
+					name := []string{"a.example", "b.example", "c.example", "nx.example"}[(g+i)%4]
 					res, err := resolver.Resolve(context.Background(), name)
 					if err != nil {
 						continue
